@@ -4,7 +4,7 @@
 From Coq Require Import ExtrOcamlBasic.
 From SonicV Require Import Base.Blocks Spec.Ref Spec.Num Spec.SortKeys
   Model.Err Model.Bitmap Model.PrefixXor Model.Bracket Model.Escape Model.SkipStr Model.SkipNum
-  Model.Skip Model.Number Model.Inplace Model.Visitor Model.Cas Model.Arc Model.ObjEq Model.Many
+  Model.Skip Model.Number Model.Inplace Model.Visitor Model.Cas Model.Arc Model.ObjEq Model.Many Model.ManySeen Model.ManyBuild
   Model.Promote Model.Pretty Model.SerRoundTrip Model.NodeBudget Model.Latch Model.SkipAll Model.Meta Model.SerAll Model.TablesDefs Model.SerVal Model.DomOps Model.Simd Gen.Funcs.
 Set Extraction KeepSingleton.
 Separate Extraction
@@ -20,7 +20,7 @@ Separate Extraction
   Model.Inplace.inplace Model.Inplace.dec
   Model.Visitor.run Model.Visitor.node_of Model.Visitor.events
   Model.Cas.run Model.Cas.init Model.Cas.step Model.Arc.runh
-  Model.ObjEq.obj_eq Model.Many.rec Model.Promote.promote Model.Promote.get_first
+  Model.ObjEq.obj_eq Model.Many.rec Model.ManySeen.rec2 Model.ManyBuild.build Model.Promote.promote Model.Promote.get_first
   Model.Pretty.run Model.Pretty.calls Model.Pretty.pretty
   Model.NodeBudget.peak Model.NodeBudget.len
   Model.Latch.latched Model.Latch.polls
